@@ -8,6 +8,9 @@ Each one rewrites every *.py file below a root IN PLACE with `ast.unparse`:
             `if c: A` gets a guard clause (`if not c: return` + A); `not c` is simplified for ==, in, is and double negation
   temps     inside functions: `return E` -> `_ret_tmp1 = E; return _ret_tmp1`, `raise E` -> `_exc_tmp2 = E; raise _exc_tmp2`,
             `if C:` -> `_cond_tmp3 = C; if _cond_tmp3:` (never for `elif`; temporaries numbered per function)
+  unmatch   `match` statements whose cases are simple (class patterns with keyword captures / constants, value patterns, `as`,
+            capture-free alternatives, a final wildcard; no guards, sequences or positional sub-patterns) become isinstance / ==
+            chains with explicit bindings
   walrus    `if (t := E):` -> `t = E; if t:`, also for the first operand of an `and` test
   else      an `if` whose body ends in return/raise/continue/break takes the following statements as its else branch; one that
             already has such an else releases it
@@ -415,6 +418,145 @@ def _walrus_module(tree: ast.Module) -> int:
     return w.count
 
 
+class Unmatcher:
+    """`match S: case P1: B1 ... case _: Bn`  ->  `if <test of P1 on S>: <bindings>; B1  elif ...  else: Bn`  for matches whose cases
+    are all simple: class patterns with keyword sub-patterns that are captures, wildcards, constants, dotted names, None/True/False
+    or bare class patterns; value patterns; `P as name`; alternatives of capture-free simple patterns; a final `_` / capture.
+    Matches with guards, sequence / mapping / star patterns, positional class sub-patterns or deeper nesting are left alone."""
+
+    class Skip(Exception):
+        pass
+
+    def __init__(self):
+        self.count = 0
+        self.k = 0
+
+    def test_and_binds(self, pat: ast.pattern, subj: ast.expr, top: bool = True) -> tuple[ast.expr | None, list[ast.stmt]]:
+        """(test or None if the pattern always matches, bindings)."""
+        load = lambda e: e  # noqa: E731
+        if isinstance(pat, ast.MatchAs):
+            if pat.pattern is None:
+                return None, ([] if pat.name is None else [ast.Assign(targets=[ast.Name(id=pat.name, ctx=ast.Store())], value=load(subj))])
+            t, b = self.test_and_binds(pat.pattern, subj, top)
+            return t, b + [ast.Assign(targets=[ast.Name(id=pat.name, ctx=ast.Store())], value=load(subj))]
+        if isinstance(pat, ast.MatchValue):
+            return ast.Compare(left=load(subj), ops=[ast.Eq()], comparators=[pat.value]), []
+        if isinstance(pat, ast.MatchSingleton):
+            return ast.Compare(left=load(subj), ops=[ast.Is()], comparators=[ast.Constant(value=pat.value)]), []
+        if isinstance(pat, ast.MatchOr):
+            tests = []
+            for alt in pat.patterns:
+                t, b = self.test_and_binds(alt, subj, top)
+                if b or t is None:
+                    raise self.Skip
+                tests.append(t)
+            return ast.BoolOp(op=ast.Or(), values=tests), []
+        if isinstance(pat, ast.MatchClass):
+            if pat.patterns:
+                raise self.Skip  # positional sub-patterns need __match_args__
+            tests: list[ast.expr] = [ast.Call(func=ast.Name(id="isinstance", ctx=ast.Load()), args=[load(subj), pat.cls], keywords=[])]
+            binds: list[ast.stmt] = []
+            for attr, sub in zip(pat.kwd_attrs, pat.kwd_patterns):
+                field = ast.Attribute(value=load(subj), attr=attr, ctx=ast.Load())
+                t, b = self.test_and_binds(sub, field, top=False)
+                if t is not None:
+                    tests.append(t)
+                binds += b
+            return (tests[0] if len(tests) == 1 else ast.BoolOp(op=ast.And(), values=tests)), binds
+        raise self.Skip
+
+    def convert(self, m: ast.Match) -> list[ast.stmt] | None:
+        if any(c.guard is not None for c in m.cases):
+            return None
+        pre: list[ast.stmt] = []
+        subj: ast.expr = m.subject
+        if isinstance(subj, ast.Tuple) and all(isinstance(c.pattern, ast.MatchSequence) and len(c.pattern.patterns) == len(subj.elts)
+                                               and not any(isinstance(x, ast.MatchStar) for x in c.pattern.patterns)
+                                               or (isinstance(c.pattern, ast.MatchAs) and c.pattern.pattern is None and c.pattern.name is None) for c in m.cases):
+            # `match a, b:` with `case P, Q:` arms: element-wise
+            elems: list[ast.expr] = []
+            for e in subj.elts:
+                if isinstance(e, ast.Name):
+                    elems.append(e)
+                else:
+                    self.k += 1
+                    nm = f"_match_subject{self.k}"
+                    pre.append(ast.Assign(targets=[ast.Name(id=nm, ctx=ast.Store())], value=e))
+                    elems.append(ast.Name(id=nm, ctx=ast.Load()))
+            try:
+                arms = []
+                for c in m.cases:
+                    if isinstance(c.pattern, ast.MatchAs):
+                        arms.append(((None, []), c.body))
+                        continue
+                    tests, binds = [], []
+                    for sub, e in zip(c.pattern.patterns, elems):
+                        t, b = self.test_and_binds(sub, e)
+                        if t is not None:
+                            tests.append(t)
+                        binds += b
+                    arms.append((((tests[0] if len(tests) == 1 else ast.BoolOp(op=ast.And(), values=tests)) if tests else None, binds), c.body))
+            except self.Skip:
+                return None
+            if any(t is None for (t, _), _ in arms[:-1]):
+                return None
+            node: list[ast.stmt] = []
+            for (t, binds), body in reversed(arms):
+                blk = binds + body
+                node = blk if t is None else [ast.If(test=t, body=blk, orelse=node)]
+            self.count += 1
+            return pre + node
+        if not isinstance(subj, ast.Name):
+            self.k += 1
+            nm = f"_match_subject{self.k}"
+            pre = [ast.Assign(targets=[ast.Name(id=nm, ctx=ast.Store())], value=subj)]
+            subj = ast.Name(id=nm, ctx=ast.Load())
+        try:
+            arms = [(self.test_and_binds(c.pattern, subj), c.body) for c in m.cases]
+        except self.Skip:
+            return None
+        # an irrefutable pattern may only be the last case
+        if any(t is None for (t, _), _ in arms[:-1]):
+            return None
+        node: list[ast.stmt] = []
+        for (t, binds), body in reversed(arms):
+            blk = binds + body
+            if t is None:
+                node = blk
+            else:
+                node = [ast.If(test=t, body=blk, orelse=node)]
+        self.count += 1
+        return pre + node
+
+    def block(self, stmts: list[ast.stmt]) -> list[ast.stmt]:
+        out: list[ast.stmt] = []
+        for st in stmts:
+            for f in ("body", "orelse", "finalbody"):
+                sub = getattr(st, f, None)
+                if isinstance(sub, list) and sub and isinstance(sub[0], ast.stmt):
+                    setattr(st, f, self.block(sub))
+            for h in getattr(st, "handlers", []) or []:
+                h.body = self.block(h.body)
+            for c in getattr(st, "cases", []) or []:
+                c.body = self.block(c.body)
+            if isinstance(st, ast.Match):
+                new = self.convert(st)
+                if new is not None:
+                    out.extend(new)
+                    continue
+            out.append(st)
+        return out
+
+
+def _unmatch_module(tree: ast.Module) -> int:
+    u = Unmatcher()
+    for fn in [n for n in ast.walk(tree) if isinstance(n, (ast.FunctionDef, ast.AsyncFunctionDef))]:
+        u.k = 0
+        fn.body = u.block(fn.body)
+    ast.fix_missing_locations(tree)
+    return u.count
+
+
 def apply(root: str, which: tuple[str, ...], suffix: str = "_r") -> int:
     """Applies the named transformations (in the order reorder, invert, rename) to every *.py below `root`, in place."""
     total = 0
@@ -433,6 +575,8 @@ def apply(root: str, which: tuple[str, ...], suffix: str = "_r") -> int:
             if "invert" in which:
                 tree, n = _invert_module(tree)
                 k += n
+            if "unmatch" in which:
+                k += _unmatch_module(tree)
             if "walrus" in which:
                 k += _walrus_module(tree)
             if "else" in which:
